@@ -283,6 +283,31 @@ fn p01(p: &mut ProbeReport, r: &mut Rng, budget: usize) {
 
 // ---------------- C02: titles are the stored titles, only decorated ----------------
 fn p02(p: &mut ProbeReport, r: &mut Rng, budget: usize) {
+    // every inventory letter of every language, stored decomposed as the ONLY combining mark of the title, alone and
+    // next to an unrelated precomposed letter: the returned title (markers deleted) is the composed title
+    for code in LANGS.iter().skip(1) {
+        let v = vocab(code);
+        for &c in &v.accents {
+            let (b, m) = match decompose_char(c) { Some(x) => x, None => continue };
+            let w = v.word(r);
+            for title in [format!("{}{}{} {}", b, m, w, w), format!("{} {}{}{}", w, w, b, m), format!("{}{}", b, m)] {
+                let src: Vec<char> = title.chars().collect();
+                let want: String = ref_compose(&v.accents, &src).into_iter().filter(|x| *x != '\0').collect();
+                let scn = Scn { lang: code.to_string(), recs: vec![(1, title.clone(), 1)], limit: 10 };
+                let mut st = scn.build();
+                for q in [String::new(), w.clone()] {
+                    p.eval(&format!("{}|lone-mark|{}|{}", code, title, q), true);
+                    for (id, t) in search_marked(&mut st, &q) {
+                        let plain: Option<String> = parse_marked(&t).map(|x| x.0.into_iter().collect());
+                        if id != 1 || plain.as_deref() != Some(want.as_str()) {
+                            p.fail(format!("title {:?} is returned as {:?}; with the markers deleted the composed title {:?} is required", title, t, want), scn.case("c02-lone-mark", vec![Op::Markers(ML.to_string(), MR.to_string()), Op::Search(q.clone())]));
+                        }
+                    }
+                }
+            }
+        }
+    }
+    let budget = budget + p.evaluations;
     let mut i = 0;
     while p.evaluations < budget {
         let code = LANGS[i % LANGS.len()]; i += 1;
@@ -305,7 +330,7 @@ fn p02(p: &mut ProbeReport, r: &mut Rng, budget: usize) {
             // some record with this id must have this composed title
             let ok = scn.recs.iter().filter(|e| e.0 == *id).any(|e| {
                 let src: Vec<char> = e.1.chars().collect();
-                let composed = lang.unicode_compose(&src).unwrap_or(src);
+                let composed = ref_compose(&v.accents, &src);
                 let want: Vec<char> = composed.into_iter().filter(|c| *c != '\0').collect();
                 want == plain
             });
@@ -440,7 +465,52 @@ fn p04(p: &mut ProbeReport, r: &mut Rng, budget: usize) {
 }
 
 // ---------------- C05: no unrelated hits; highlight bounded by what was typed ----------------
+/// put a store into one of several histories before the search under test (results discarded): nothing, an
+/// empty-query search, an empty-query search after widening the limit, a search for the first title's first word
+pub fn prime(st: &mut Store, scn: &Scn, k: usize) -> Vec<Op> {
+    match k % 4 {
+        1 => { let _ = search_results(st, ""); vec![Op::Search(String::new())] }
+        2 => { let n = scn.recs.len() + 5; let old = st.limit; st.limit = n; let _ = search_results(st, ""); st.limit = old; vec![Op::Limit(n), Op::Search(String::new()), Op::Limit(old)] }
+        3 => { let q: String = scn.recs.first().map(|e| e.1.split_whitespace().next().unwrap_or("").to_string()).unwrap_or_default(); let _ = search_results(st, &q); vec![Op::Search(q)] }
+        _ => vec![],
+    }
+}
+
 fn p05(p: &mut ProbeReport, r: &mut Rng, budget: usize) {
+    // queries that resemble a title word without sharing a gram with it (first two letters swapped, first letter
+    // replaced), on stores in several histories: whatever is returned must share a gram with the query
+    for (n, code) in LANGS.iter().cycle().take(LANGS.len() * 30).enumerate() {
+        let v = vocab(code);
+        let lang = make_lang(code);
+        let w: Vec<char> = v.word(r).chars().filter(|c| c.is_alphanumeric()).take(r.range(3, 5)).collect();
+        if w.len() < 3 { continue; }
+        let ws: String = w.iter().collect();
+        let scn = Scn { lang: code.to_string(), recs: vec![(1, format!("{} {}", ws, v.word(r)), 7), (2, v.title(r), 3), (3, format!("{} {}", v.word(r), ws), 5)], limit: 10 };
+        if scn.recs.iter().any(|e| has_sentinel(&e.1)) { continue; }
+        let mut swapped = w.clone(); swapped.swap(0, 1);
+        let mut replaced = w.clone(); replaced[0] = *r.pick(&v.letters);
+        let mut second = w.clone(); second[1] = *r.pick(&v.letters); second[0] = *r.pick(&v.letters);
+        for qv in [swapped, replaced, second] {
+            let q: String = qv.iter().collect();
+            let tq = tokenize_query(&q, &lang);
+            if tq.words.is_empty() { continue; }
+            let qg = grams_of(&tq);
+            for k in 0..4 {
+                let mut st = scn.build();
+                let mut ops = prime(&mut st, &scn, k + n);
+                p.eval(&format!("{}|nogram|{}|{}|{}", code, ws, q, k), true);
+                for (id, title) in search_marked(&mut st, &q) {
+                    let related = scn.recs.iter().filter(|e| e.0 == id).any(|e| !grams_of(&tokenize_record(&e.1, &lang)).is_disjoint(&qg));
+                    if !related {
+                        ops.push(Op::Markers(ML.to_string(), MR.to_string())); ops.push(Op::Search(q.clone()));
+                        p.fail(format!("hit {} {:?} shares no gram with query {:?} (history variant {})", id, title, q, (k + n) % 4), scn.case("c05-nogram", ops));
+                        break;
+                    }
+                }
+            }
+        }
+    }
+    let budget = budget + p.evaluations;
     let mut i = 0;
     while p.evaluations < budget {
         let code = LANGS[i % LANGS.len()]; i += 1;
@@ -472,6 +542,7 @@ fn p05(p: &mut ProbeReport, r: &mut Rng, budget: usize) {
         let scn = rand_scn(&v, r, 14, false, false);
         if scn.recs.iter().any(|e| has_sentinel(&e.1)) { continue; }
         let mut st = scn.build();
+        let _ = prime(&mut st, &scn, i / 3);
         let t0 = r.pick(&scn.recs).1.clone();
         let q = query_for(&v, r, &t0);
         let tq = tokenize_query(&q, &lang);
@@ -851,6 +922,54 @@ fn p10(p: &mut ProbeReport, r: &mut Rng, budget: usize) {
         }
         p.notes.insert("exhaustive_sequences".into(), total);
         p.notes.insert("exhaustive_max_len".into(), maxlen);
+    }
+    // scratch state that grows: on a thread whose per-thread buffers are still at their initial capacity, ordinary
+    // queries are answered, then a record with a very long word is added and asked for (the buffers grow), then the
+    // ordinary queries are repeated; every answer is compared with a fresh store on a fresh thread. Three growth steps.
+    for (li, code) in LANGS.iter().enumerate() {
+        let v = vocab(code);
+        let mut recs: Vec<(usize, String, usize)> = (0..8).map(|i| (i + 1, v.title(r), 1000 - 10 * i)).collect();
+        let queries: Vec<String> = (0..10).map(|_| { let t = r.pick(&recs).1.clone(); query_for(&v, r, &t) }).collect();
+        let longs: Vec<String> = [22usize, 36, 58].iter().map(|n| (0..*n).map(|k| if k % 7 == 3 { *r.pick(&v.letters) } else { v.letters[(k * 5 + li) % v.letters.len()] }).collect()).collect();
+        let code_s = code.to_string();
+        let (recs0, queries0, longs0) = (recs.clone(), queries.clone(), longs.clone());
+        let outcome = std::thread::spawn(move || {
+            let markers = ("[".to_string(), "]".to_string());
+            let mut recs = recs0;
+            let mut st = Scn { lang: code_s.clone(), recs: recs.clone(), limit: 10 }.build();
+            let mut ops: Vec<Op> = vec![Op::New, Op::Limit(10)];
+            for (id, t, rt) in &recs { ops.push(Op::Add(*id, *rt, t.clone())); }
+            let mut evals = 0usize;
+            for step in 0..=longs0.len() {
+                for q in &queries0 {
+                    ops.push(Op::Search(q.clone()));
+                    let got = search_results(&st, q);
+                    let want = fresh_thread_search(&code_s, &recs, 10, &markers, q);
+                    evals += 1;
+                    if got != want { return (evals, Some((format!("after {} growth step(s) of the per-thread scratch buffers search {:?} returns {:?} but a fresh store on a fresh thread returns {:?}", step, q, got, want), ops))); }
+                }
+                if step < longs0.len() {
+                    let w = &longs0[step];
+                    let id = 100 + step;
+                    add_to(&mut st, id, &format!("{} x", w), 5); recs.push((id, format!("{} x", w), 5)); ops.push(Op::Add(id, 5, format!("{} x", w)));
+                    for cut in [w.chars().count() - 1, w.chars().count() / 2, w.chars().count()] {
+                        let q: String = w.chars().take(cut).collect();
+                        ops.push(Op::Search(q.clone()));
+                        let got = search_results(&st, &q);
+                        let want = fresh_thread_search(&code_s, &recs, 10, &markers, &q);
+                        evals += 1;
+                        if got != want { return (evals, Some((format!("search {:?} for the long word returns {:?} but a fresh store on a fresh thread returns {:?}", q, got, want), ops))); }
+                    }
+                }
+            }
+            (evals, None)
+        }).join();
+        let _ = (&mut recs, &queries, &longs);
+        match outcome {
+            Ok((n, None)) => { for k in 0..n { p.eval(&format!("growth|{}|{}", code, k), true); } }
+            Ok((_, Some((what, ops)))) => { p.eval(&format!("growth|{}", code), true); p.fail(what, Case { name: "c10-growth".into(), lang: code.to_string(), stream: "probe", ops }); }
+            Err(_) => { p.eval(&format!("growth|{}", code), true); p.fail("the scratch-growth sequence panicked".into(), Case { name: "c10-growth".into(), lang: code.to_string(), stream: "probe", ops: vec![] }); }
+        }
     }
     let budget = budget + p.evaluations;
     let mut i = 0;
